@@ -484,12 +484,23 @@ def case_init(tag, pad=3, funcs=0, sameline=False):
     return [m.cmd(), "load o1 %s/m" % d, exp]
 
 
-def case_init_big(tag, nlines=6, nterms=24, pad=2):
+def case_init_big(tag, nlines=6, nterms=24, pad=2, prefill=0):
     """an initialiser block of several hundred bytes: `nlines` initialised globals with long expressions in front of the
     failing one (its noted offset is far beyond 255)"""
     d = "/c18/%s" % tag
     m = Src("%s/m.c" % d)
     m.text("int x_;\nint z_;\nvoid set_oid(string s) {}\nint h0(int k) {\n  x_ = k;\n  return x_;\n}\n")
+    # `prefill` filler statements (8 bytes of code each) in functions in front: with about 470 / 990 / 2010 of them the
+    # function code ends just below 4096 / 8192 / 16384 bytes, so appending the initialiser block makes the program
+    # block grow (and move) inside i_generate___INIT
+    k = 0
+    while prefill > 0:
+        n = min(180, prefill)
+        k += 1
+        m.text("int hp%d(int k) {\n" % k)
+        m.pad("s", n)
+        m.text("  return k;\n}\n")
+        prefill -= n
     m.pad("n", pad)
     for i in range(nlines):
         m.text("int a%d_ = %s;\n" % (i, " + ".join("(x_ * %d)" % (j % 50 + 2) for j in range(nterms))))
@@ -1438,7 +1449,9 @@ class C18(Prop):
                                   case_after_fatal_in_include(tag, rng.range(1, 4), rng), {"fail": "div", "origin": "generated"}))
                 continue
             if rng.chance(1, 40):
-                out.append(E.Case("g%d" % i, case_init_big(tag, rng.range(2, 10), rng.range(8, 45), rng.range(0, 100)), {"fail": "init", "origin": "generated"}))
+                out.append(E.Case("g%d" % i, case_init_big(tag, rng.range(2, 10), rng.range(8, 45), rng.range(0, 100),
+                                                           prefill=rng.choice([0, 0, 440 + rng.range(0, 60), 960 + rng.range(0, 60)])),
+                                  {"fail": "init", "origin": "generated"}))
                 continue
             if rng.chance(1, 20):
                 out.append(E.Case("g%d" % i, case_init_pair(tag, pad=rng.range(0, 300)) if rng.chance(1, 3) else
@@ -1573,6 +1586,8 @@ class C18(Prop):
         mk("init-same-line-as-function", case_init("b_init5", pad=4, funcs=1, sameline=True), fail="init")
         mk("init-same-line-only", case_init("b_init6", pad=0, funcs=0, sameline=True), fail="init")
         mk("init-big-block", case_init_big("b_init8"), fail="init")
+        for pf in (470, 990, 2010):
+            mk("init-block-grows-program-%d" % pf, case_init_big("b_initg%d" % pf, nlines=10, nterms=30, prefill=pf), fail="init")
         mk("init-big-block-far", case_init_big("b_init9", nlines=12, nterms=40, pad=300), fail="init")
         mk("after-failed-compile", case_after_failed_compile("b_afc"), fail="div")
         mk("after-fatal-in-include", case_after_fatal_in_include("b_afi"), fail="div")
